@@ -619,8 +619,35 @@ def check_dimensions(ctx, db):
     ctx.require('R-DIM resolved sites', n, 28)
 
 
+def check_unscaled_bookkeeping(ctx, db):
+    """R-EFFECT (who may read): `end_width` / `end_offset` of an element are the builders' memory of the last *unscaled* width and
+    offset (the start value of the next interpolation). Geometry, queries and file records take widths and offsets from the
+    interpolation arrays times width_scale / offset_scale. So these two fields are read only (a) by fill_widths_and_offsets and its
+    file-local helpers and (b) to copy them into the same field of another element."""
+    allowed = {g.key for g, _ in db.with_helpers([db.fn('gdstk::RobustPath::fill_widths_and_offsets')])}
+    n = 0
+    for f in db.functions:
+        if f.body is None or not f.relfile().startswith(('src/', 'include/gdstk/')):
+            continue
+        for x in f.walk():
+            if x.k != 'MemberExpr' or x.n not in ('end_width', 'end_offset') or 'RobustPathElement' not in ((x.child('base').t or '') + (x.child('base').ct or '') if x.child('base') is not None else ''):
+                continue
+            p_ = x.parent
+            while p_ is not None and p_.k in ('ImplicitCastExpr', 'ParenExpr'):
+                p_ = p_.parent
+            if p_ is not None and is_assign(p_) and _strip_casts(p_.child('lhs')) is x:
+                continue            # a write
+            n += 1
+            copy = p_ is not None and is_assign(p_) and _strip_casts(p_.child('lhs')).k == 'MemberExpr' and _strip_casts(p_.child('lhs')).n == x.n
+            ok = copy or f.key in allowed or f.name == 'print'
+            ctx.check(ok, 'R-EFFECT', 'RobustPathElement::%s/read@%s' % (x.n, x.loc()), x.loc(), '%s is read by the builder bookkeeping / copied field to field' % x.n,
+                      '%s reads %s, the unscaled value remembered for the next builder call: it ignores %s accumulated by scale()/transform(), so the result differs once the path was scaled' % (f.qn.replace('gdstk::', ''), x.n, 'width_scale' if x.n == 'end_width' else 'offset_scale'))
+    ctx.require('R-EFFECT end_width/end_offset reads', n, 4)
+
+
 def run(ctx):
     db = ctx.db
+    ctx.attempt(check_unscaled_bookkeeping, ctx, db)
     ctx.attempt(check_bookkeeping, ctx, db)
     ctx.attempt(check_frame, ctx, db)
     ctx.attempt(check_clones, ctx, db)
@@ -648,7 +675,7 @@ def run(ctx):
 
 
 MANIFEST = dict(
-    text='(R-DIM) A powers-of-length analysis of to_polygons and the intersection searches finds every addition and comparison dimensionally consistent; Decides structural necessary conditions of RobustPath consistency on every path: each section append is followed by exactly one fill_widths_and_offsets, which gives every element one width and one offset entry on all four branch combinations; no builder reads the path transform (frame discipline); the four point samplers, the four intersection searches and the four parameter-query prologues are clone families evaluating only their own side, with the sampler step clamped to the section end; look-ahead iterators advance with their loops in to_polygons/element_center/spine and the trailing cursors of the parallel section/offset/width arrays jump together; the OASIS PATH half-width is half and the GDSII WIDTH the full interpolated width; SubPathType/InterpolationType/EndType switches are exhaustive (defaults frozen); RobustPath::commands consumes exactly the operands its guard and advance constants state; SubPath::gradient is, symbolically, the derivative of SubPath::eval for segment, arc, quadratic and cubic sections, under the same linear transform; the builders segment/cubic/cubic_smooth/quadratic/quadratic_smooth store exactly the documented control points in relative and absolute mode, every builder including arc produces a section that evaluates (through SubPath::eval) to the previous end point at u = 0 and to the stored new end point at u = 1, and the smooth variants are C1 (the gradient of the new section at 0, taken from the matching arm of SubPath::gradient, equals the previous end gradient); the path-matrix methods translate, simple_scale, scale, simple_rotate, rotate, x_reflection and transform (both reflection states) update the 2x3 matrix so that, identically, every section point is mapped to the documented image of its previous image. Sampling accuracy, intersection convergence and cap geometry are not decided.',
+    text='(R-DIM) A powers-of-length analysis of to_polygons and the intersection searches finds every addition and comparison dimensionally consistent; Decides structural necessary conditions of RobustPath consistency on every path: each section append is followed by exactly one fill_widths_and_offsets, which gives every element one width and one offset entry on all four branch combinations; no builder reads the path transform (frame discipline); the four point samplers, the four intersection searches and the four parameter-query prologues are clone families evaluating only their own side, with the sampler step clamped to the section end; look-ahead iterators advance with their loops in to_polygons/element_center/spine and the trailing cursors of the parallel section/offset/width arrays jump together; the OASIS PATH half-width is half and the GDSII WIDTH the full interpolated width; the unscaled builder memory end_width/end_offset is read only by the builder bookkeeping and field-to-field copies (never by outline, query or writer code); SubPathType/InterpolationType/EndType switches are exhaustive (defaults frozen); RobustPath::commands consumes exactly the operands its guard and advance constants state; SubPath::gradient is, symbolically, the derivative of SubPath::eval for segment, arc, quadratic and cubic sections, under the same linear transform; the builders segment/cubic/cubic_smooth/quadratic/quadratic_smooth store exactly the documented control points in relative and absolute mode, every builder including arc produces a section that evaluates (through SubPath::eval) to the previous end point at u = 0 and to the stored new end point at u = 1, and the smooth variants are C1 (the gradient of the new section at 0, taken from the matching arm of SubPath::gradient, equals the previous end gradient); the path-matrix methods translate, simple_scale, scale, simple_rotate, rotate, x_reflection and transform (both reflection states) update the 2x3 matrix so that, identically, every section point is mapped to the documented image of its previous image. Sampling accuracy, intersection convergence and cap geometry are not decided.',
     note='Trusted: clang front end, gx, sa rules. The direct-builder set is discovered (methods appending to subpath_array) and compared with the confirmed list, so a new builder is reported until it is paired and listed.',
     technique='post-dominance pairing over the CFG + who-may-read effect rule + clone families with callee abstraction + look-ahead iterator rule + operand-consumption tables',
     design='§4 C08')
